@@ -419,6 +419,9 @@ func (q *LinkedListQueue[T]) Shift() (T, error) {
 	q.first = node.Next
 	if q.first == nil {
 		q.last = nil
+	} else {
+		// The removed node is going to be recycled: do not keep a link to it
+		q.first.Prev = nil
 	}
 	val := *node.Val
 
@@ -459,6 +462,9 @@ func (q *LinkedListQueue[T]) Pop() (T, error) {
 	q.last = node.Prev
 	if q.last == nil {
 		q.first = nil
+	} else {
+		// The removed node is going to be recycled: do not keep a link to it
+		q.last.Next = nil
 	}
 	val := *node.Val
 	q.recycleNode(node)
